@@ -122,11 +122,17 @@ func (c *FileCache) Close(file *os.File) error {
 
 	if elem, ok := c.cache[name]; ok {
 		ent := elem.Value.(*entry)
-		if ent.refs == 0 {
-			return &os.PathError{Op: "close", Path: name, Err: os.ErrClosed}
+		// A different File with the same name may be in the cache, if the
+		// file being closed was opened while the cache had zero capacity.
+		// That File is not shared and must be closed, and not counted against
+		// the cached one.
+		if ent.file == file {
+			if ent.refs == 0 {
+				return &os.PathError{Op: "close", Path: name, Err: os.ErrClosed}
+			}
+			ent.refs--
+			return nil
 		}
-		ent.refs--
-		return nil
 	}
 
 	// File is not in removed or in cache, so just close it
